@@ -56,6 +56,27 @@ impl Benign {
     }
 }
 
+thread_local! {
+    /// When set (by a scenario, around its sweep), injected hard read/write errors cycle through several
+    /// `ErrorKind`s instead of always being `Other`: the kind is a pure function of the salt and the
+    /// index of the failing event, so a replay reproduces it without any extra draw.
+    pub static ERROR_KIND_SALT: std::cell::Cell<Option<u64>> = const { std::cell::Cell::new(None) };
+}
+
+fn injected_error(event: u64, what: &'static str) -> io::Error {
+    const KINDS: [io::ErrorKind; 4] = [io::ErrorKind::Other, io::ErrorKind::UnexpectedEof, io::ErrorKind::BrokenPipe, io::ErrorKind::InvalidData];
+    match ERROR_KIND_SALT.with(|c| c.get()) {
+        None => io::Error::other(what),
+        Some(salt) => {
+            let k = KINDS[(event.wrapping_add(salt) % 4) as usize];
+            if k != io::ErrorKind::Other {
+                fault_fired("io_error_kind_varied");
+            }
+            io::Error::new(k, what)
+        }
+    }
+}
+
 #[derive(Clone, Copy, Debug, PartialEq, Eq)]
 pub enum HardKind {
     /// the event at index `at` fails once with ErrorKind::Other
@@ -312,7 +333,7 @@ impl Write for SimFile {
                 fault_fired("io_error_write");
                 d.ev(OP_WRITE, 10, 1);
                 d.tr(|| format!("write({}) -> Err(Other) [INJECTED]", buf.len()));
-                return Err(io::Error::other("injected write error"));
+                return Err(injected_error(d.hard_seq, "injected write error"));
             }
             Some(HardHit::Zero) => {
                 d.hard_fired += 1;
@@ -470,7 +491,7 @@ impl Read for SimFile {
                 fault_fired("io_error_read");
                 d.ev(OP_READ, 10, 1);
                 d.tr(|| format!("read({}) -> Err(Other) [INJECTED]", buf.len()));
-                return Err(io::Error::other("injected read error"));
+                return Err(injected_error(d.hard_seq, "injected read error"));
             }
             Some(HardHit::Eintr) => {
                 d.hard_fired += 1;
